@@ -279,6 +279,13 @@ func (r *Reconciler) updateInstanceWithCurrentRS(logger logr.Logger, now time.Ti
 		}
 	}
 
+	if daemonset.Spec.Strategy.Canary == nil && newDaemonset.Status.Canary != nil {
+		// The canary strategy was removed while a canary was in progress: the canary is over, its
+		// nodes go back to the active replica set.
+		newDaemonset.Status.Canary = nil
+		updateDaemonsetAnnotations = clearCanaryAnnotations(newDaemonset)
+	}
+
 	// Check if newDaemonset differs from existing daemonset, and update if so
 	if !apiequality.Semantic.DeepEqual(daemonset, newDaemonset) {
 		logger.Info("Updating ExtendedDaemonSet status")
